@@ -565,7 +565,8 @@ pub fn foreign(args: &[String]) {
 pub fn js_records(core: &Core) -> Option<Value> {
     let l = layout()?;
     let img = core.disk.images();
-    if img[2].len() > 4096 || img[3].len() > 200_000 {
+    // up to three bitfield pages (98304 blocks)
+    if img[2].len() > 3 * 4096 || img[3].len() > 16_000_000 {
         return None;
     }
     Some(decode_stores(l, &img))
